@@ -120,6 +120,16 @@ func genDataMessage(t *rapid.T) *c09Case {
 		if c.msg.Data == nil {
 			c.msg.Data = []byte{}
 		}
+		if rapid.IntRange(0, 7).Draw(t, "bigData") == 0 {
+			// inline data of real-world sizes (small files and symlink targets are stored inline): lengths up to a few KiB,
+			// which is also where an encoder's buffer has to grow
+			n := rapid.IntRange(0, 4200).Draw(t, "dataLen")
+			if rapid.Bool().Draw(t, "dataLenNearPow2") {
+				n = (1 << rapid.IntRange(6, 12).Draw(t, "dataPow")) - rapid.IntRange(0, 40).Draw(t, "dataBelow")
+			}
+			c.msg.Data = lcgBytes(n, rapid.Byte().Draw(t, "dataFill"), 0)
+			c.flags["inline-data>12"] = true
+		}
 		fields = append(fields, wBytes(nil, 2, c.msg.Data))
 	}
 	if rapid.Bool().Draw(t, "hasFileSize") {
@@ -305,6 +315,15 @@ func c09CheckData(msg *pb.Data, wire []byte) error {
 	}
 	if !bytes.Equal(canon, enc) {
 		return fmt.Errorf("library encoding %x is not the canonical encoding %x of {%v}", enc, canon, want)
+	}
+	// the appending entry point, into caller buffers with little or no room to spare, must produce prefix + the same bytes
+	for _, slack := range []int{0, 1, 2, 5, 9, 15, 16, 17, 18, 19, 20, 21, 22, 23, 24, 31, 64, len(enc), len(enc) + 1} {
+		buf := make([]byte, 3, 3+slack)
+		buf[0], buf[1], buf[2] = 0xAA, 0xBB, 0xCC
+		out := data.AppendEncodeUnixFSData(buf, d)
+		if len(out) != 3+len(enc) || !bytes.Equal(out[:3], []byte{0xAA, 0xBB, 0xCC}) || !bytes.Equal(out[3:], enc) {
+			return fmt.Errorf("AppendEncodeUnixFSData into a buffer with %d spare bytes gives %x, EncodeUnixFSData gives %x for {%v}", slack, out, enc, msg)
+		}
 	}
 	// decode(encode(d)) keeps the permission bits
 	d2, err := data.DecodeUnixFSData(enc)
